@@ -456,6 +456,11 @@ func runC02(c *Ctx, w *World, r *Report) {
 								badH = fmt.Sprintf("the step testing the low %d bits shifts the word by %d at %s", W, kc, w.InstrPos(i2))
 							}
 						}
+					case token.XOR:
+						// offset ^= W is offset |= W when bit W cannot be set yet (each step sets its own bit, once)
+						if pb, known := possibleBits(b2.X, 0); isPositionType(b2.Type()) && known && pb&uint64(kc) == 0 && kc == W {
+							okOff = true
+						}
 					case token.OR, token.ADD:
 						if isPositionType(b2.Type()) && (kc == 32 || kc == 16 || kc == 8 || kc == 15 || kc == 31 || kc == 33 || kc == 17) {
 							if kc == W {
@@ -463,6 +468,34 @@ func runC02(c *Ctx, w *World, r *Report) {
 							} else {
 								badH = fmt.Sprintf("the step testing the low %d bits advances the offset by %d at %s", W, kc, w.InstrPos(i2))
 							}
+						}
+					}
+				}
+				// offset = W where the offset is still 0 (the first step): the merge takes W from the taken edge and the
+				// untouched 0 from the other
+				if !okOff && len(tb.Succs) == 1 {
+					for _, ji := range tb.Succs[0].Instrs {
+						ph, isPhi := ji.(*ssa.Phi)
+						if !isPhi {
+							break
+						}
+						if !isPositionType(ph.Type()) {
+							continue
+						}
+						gotW, restZero := false, true
+						for k, e := range ph.Edges {
+							if tb.Succs[0].Preds[k] == tb {
+								if c, isC := constInt64(stripConv(e)); isC && c == W {
+									gotW = true
+								}
+								continue
+							}
+							if pb, known := possibleBits(e, 0); !known || pb != 0 {
+								restZero = false
+							}
+						}
+						if gotW && restZero {
+							okOff = true
 						}
 					}
 				}
@@ -579,4 +612,55 @@ func init() {
 		Quick:   []Config{cfgDefault, cfg386}, Thorough: []Config{cfgDefault, cfg386},
 		Run: runC02,
 	})
+}
+
+// possibleBits: an over-approximation of the bits that can be set in v, for values built from constants by merges,
+// |, ^, & and + of operands with disjoint bits. known is false when v is anything else.
+func possibleBits(v ssa.Value, depth int) (uint64, bool) {
+	v = stripConv(v)
+	if depth > 6 {
+		return 0, false
+	}
+	if k, ok := constUint64(v); ok {
+		return k, true
+	}
+	switch x := v.(type) {
+	case *ssa.Phi:
+		if isLoopHeaderPhi(x) {
+			return 0, false
+		}
+		var all uint64
+		for _, e := range x.Edges {
+			b, ok := possibleBits(e, depth+1)
+			if !ok {
+				return 0, false
+			}
+			all |= b
+		}
+		return all, true
+	case *ssa.BinOp:
+		a, ok1 := possibleBits(x.X, depth+1)
+		b, ok2 := possibleBits(x.Y, depth+1)
+		switch x.Op {
+		case token.OR, token.XOR:
+			if ok1 && ok2 {
+				return a | b, true
+			}
+		case token.ADD:
+			if ok1 && ok2 && a&b == 0 {
+				return a | b, true
+			}
+		case token.AND:
+			if ok1 && ok2 {
+				return a & b, true
+			}
+			if ok1 {
+				return a, true
+			}
+			if ok2 {
+				return b, true
+			}
+		}
+	}
+	return 0, false
 }
